@@ -203,12 +203,12 @@ template <int N, class T> static void core(pbt::Ctx& c, bool exact_only) {
 	           "integer matrices with |entries| <= B, n! B^n <= 2^p (every intermediate of a cofactor expansion is an exactly representable integer): unimodular products of signed permutations and integer shears, " \
 	           "general small-integer matrices (singular ones included for determinant/adjugate), integer triangular, affine integer; determinant, adjugate exact for all, inverse, inverseTranspose and both " \
 	           "identity products exact for det = +-1; non-trivial = neither diagonal nor symmetric")
-REG_CORE(2, float, float, 300000, 20000000);
-REG_CORE(3, float, float, 300000, 20000000);
-REG_CORE(4, float, float, 300000, 20000000);
-REG_CORE(2, double, double, 300000, 20000000);
-REG_CORE(3, double, double, 300000, 20000000);
-REG_CORE(4, double, double, 300000, 20000000);
+REG_CORE(2, float, float, 300000, 8000000);
+REG_CORE(3, float, float, 300000, 8000000);
+REG_CORE(4, float, float, 300000, 8000000);
+REG_CORE(2, double, double, 300000, 8000000);
+REG_CORE(3, double, double, 300000, 8000000);
+REG_CORE(4, double, double, 300000, 8000000);
 
 // =============================================================================================
 // det(A*B) = det(A) det(B), evaluated on GLM's results: P = fl(A*B) (GLM operator*), |E| = |P - AB| <= n u |A||B| entry-wise, so
@@ -254,11 +254,11 @@ template <int N, class T> static void detprod(pbt::Ctx& c) {
 	PBT_RANDOM("det_product/mat" #N "/" #tname, detprod_##N##_##tname, q, t, \
 	           "pairs A,B of in-range matrices of every generator class (one quarter small-integer/unimodular pairs where everything is exact); determinant(A*B) against determinant(A)*determinant(B) within the " \
 	           "first-order perturbation bound of the rounded product plus the Leibniz bounds of the three determinants; non-trivial = neither factor diagonal and the bound <= 1e-2 |det A det B|")
-REG_DP(2, float, float, 150000, 10000000);
-REG_DP(3, float, float, 150000, 10000000);
-REG_DP(4, float, float, 150000, 10000000);
-REG_DP(2, double, double, 150000, 10000000);
-REG_DP(3, double, double, 150000, 10000000);
-REG_DP(4, double, double, 150000, 10000000);
+REG_DP(2, float, float, 150000, 3000000);
+REG_DP(3, float, float, 150000, 3000000);
+REG_DP(4, float, float, 150000, 3000000);
+REG_DP(2, double, double, 150000, 3000000);
+REG_DP(3, double, double, 150000, 3000000);
+REG_DP(4, double, double, 150000, 3000000);
 
 int main(int argc, char** argv) { return pbt::pbt_main(argc, argv, "C10"); }
